@@ -23,8 +23,21 @@ var zzStreaming bool
 var zzForwarded int
 var zzMatches []bool // uninterpreted result of deny pattern i on the prompt
 
-func ZZExtractPrompt(body []byte) string { return zzPrompt }
-func ZZCheckStreaming(body []byte) bool  { return zzStreaming }
+// zzRealPrompt switches the stubs off: the real extractPrompt / checkStreaming parse the request body.
+var zzRealPrompt bool
+
+func ZZExtractPrompt(body []byte) string {
+	if zzRealPrompt {
+		return extractPrompt(body)
+	}
+	return zzPrompt
+}
+func ZZCheckStreaming(body []byte) bool {
+	if zzRealPrompt {
+		return checkStreaming(body)
+	}
+	return zzStreaming
+}
 
 // ZZUpstream replaces ReverseProxy.ServeHTTP: the request reached the upstream model.
 func ZZUpstream(p *httputil.ReverseProxy, w http.ResponseWriter, r *http.Request) {
@@ -235,5 +248,72 @@ func ZZVerifC17CacheMonotone() {
 	h1, _, _ := zzRunCache(thr, d1, false, 0)
 	h2, _, _ := zzRunCache(thr, d2, false, 0)
 	rt.Assert(rt.Implies(h2, h1), "cache: the hit decision is monotone in the distance")
+	rt.Reach("end")
+}
+
+type zzMsg struct{ role, content string }
+
+func zzBodyJSON(shape int, msgs []zzMsg, stream bool) string {
+	st := "false"
+	if stream {
+		st = "true"
+	}
+	if shape == 0 {
+		return `{"model":"m","prompt":"` + msgs[0].content + `","stream":` + st + `}`
+	}
+	out := `{"model":"m","stream":` + st + `,"messages":[`
+	for i, m := range msgs {
+		if i > 0 {
+			out += ","
+		}
+		out += `{"role":"` + m.role + `","content":"` + m.content + `"}`
+	}
+	return out + "]}"
+}
+
+// ZZVerifC17LatestUserMessage: for every bounded multi-message history (roles system / user / assistant / tool in any
+// order, prompt- and messages-shaped bodies) the text the gateway screens is the latest user message, and a
+// history whose latest user message matches a deny pattern is refused even when later non-user messages follow.
+func ZZVerifC17LatestUserMessage() {
+	roles := []string{"system", "user", "assistant", "tool"}
+	n := rt.IntRange("messages", 1, rt.Param("MSGS", 3))
+	var msgs []zzMsg
+	want := ""
+	for i := 0; i < n; i++ {
+		r := roles[rt.IntRange("role", 0, len(roles)-1)]
+		c := "m" + string(rune('0'+i))
+		if rt.IntRange("emptyContent", 0, 3) == 0 {
+			c = ""
+		}
+		msgs = append(msgs, zzMsg{r, c})
+		if r == "user" && c != "" {
+			want = c
+		}
+	}
+	shape := 1
+	if n == 1 && rt.IntRange("promptShaped", 0, 1) == 1 {
+		shape = 0
+		want = msgs[0].content
+	}
+	stream := rt.IntRange("stream", 0, 1) == 1
+	body := []byte(zzBodyJSON(shape, msgs, stream))
+	zzRealPrompt = true // the stubs delegate to the real parsers in this harness
+	rt.Assert(extractPrompt(body) == want, "extractPrompt: the latest non-empty user message (or the prompt field) is what gets screened")
+	rt.Assert(checkStreaming(body) == stream, "checkStreaming: reads the stream flag")
+	// end to end: the deny pattern matches exactly the latest user message
+	if want != "" {
+		e := zzEngine(false, 0)
+		p := zzProxy(e, 1)
+		p.cfg.FirewallEnabled = true
+		rt.Assume(zzMatches[0])
+		zzForwarded = 0
+		zzRealPrompt = true
+		rec := &zzRec{hdr: http.Header{}}
+		req := &http.Request{Method: "POST", URL: &url.URL{Path: "/v1/chat/completions"}, Header: http.Header{}, Body: zzBody{strings.NewReader(string(body))}}
+		p.ServeHTTP(rec, req)
+		zzRealPrompt = false
+		rt.Assert(rec.status == http.StatusForbidden && zzForwarded == 0, "firewall: a denied latest user message is refused whatever messages follow it")
+		rt.Reach("screened")
+	}
 	rt.Reach("end")
 }
